@@ -6,6 +6,7 @@ import (
 	"fmt"
 	"math/big"
 	"sort"
+	"strings"
 	"time"
 
 	sdk "github.com/cosmos/cosmos-sdk/types"
@@ -341,7 +342,18 @@ func (g *Gen) buildTx() *Step {
 		}
 	}
 	if g.R.Chance(p.PBank) {
-		ts.BankFault = &BankFaultSpec{Method: Pick(g.R, BankFaultMethods), Nth: g.R.Range(1, 2)}
+		// aim the fault at a bank call the messages actually make (most of the time)
+		methods := BankFaultMethods
+		if g.R.Chance(0.8) {
+			var aimed []string
+			for _, k := range strings.Split(strings.Split(note, "/")[0], "+") {
+				aimed = append(aimed, bankCallsOf[k]...)
+			}
+			if len(aimed) > 0 {
+				methods = aimed
+			}
+		}
+		ts.BankFault = &BankFaultSpec{Method: Pick(g.R, methods), Nth: g.R.Weighted([]float64{0, 4, 1, 0.5})}
 	}
 	return &Step{Kind: KTx, Tx: ts}
 }
@@ -357,6 +369,17 @@ func txStep(signer string, note string, probe bool, msgs ...sdk.Msg) *Step {
 		ts.Msgs = append(ts.Msgs, bz)
 	}
 	return &Step{Kind: KTx, Tx: ts}
+}
+
+// bankCallsOf: which bank keeper methods a message kind calls (for aiming F2).
+var bankCallsOf = map[string][]string{
+	"CreateClass":     {"SendCoinsFromAccountToModule", "BurnCoins"},
+	"BasketCreate":    {"SendCoinsFromAccountToModule", "BurnCoins"},
+	"BurnRegen":       {"SendCoinsFromAccountToModule", "BurnCoins"},
+	"Put":             {"MintCoins", "SendCoinsFromModuleToAccount"},
+	"Take":            {"SendCoinsFromAccountToModule", "BurnCoins"},
+	"Buy":             {"SendCoinsFromAccountToModule", "BurnCoins", "SendCoins"},
+	"SendFromFeePool": {"SendCoinsFromModuleToAccount"},
 }
 
 var dtChoices = []time.Duration{time.Nanosecond, time.Millisecond, time.Second, 6 * time.Second, 3 * time.Minute, 5 * time.Hour, 9 * 24 * time.Hour, 400 * 24 * time.Hour}
